@@ -1,1 +1,371 @@
-/-! C02 — property theorems (placeholder until the model exists). -/
+import EupsModel.Lemmas.SetupInverse
+import EupsModel.Lemmas.SetupClear
+/-! C02 — unsetup is the inverse of setup; a failing request leaves the environment as it found it.
+Model: `EupsModel/Model/Setup.lean` (shared with C01, C04). -/
+namespace EupsModel.C02
+open EupsModel EupsModel.Setup
+
+/-! ## clause 2: a failing request hands nothing to the shell -/
+
+/-- `eups.app.setup`: when `Eups.setup` does not succeed, the command list is `["false"]` or an exception
+(or, in the model only, out-of-fuel) leaves the function: no `export`, `unset` or function definition is emitted —
+for every database, request, direction, prior environment and fuel. -/
+theorem C02_failed_request_emits_nothing (db : Db) (fuel : Nat) (fwd : Bool) (r : Request) (e : Setup.Env)
+    (hfail : ∀ s, (if fwd then runSetup db fuel r e else runUnsetup db fuel r e) ≠ .ok s) :
+    appSetup db fuel fwd r e = .cmds [.false_] ∨ appSetup db fuel fwd r e = .raised ∨
+    appSetup db fuel fwd r e = .fuel := by
+  unfold appSetup
+  cases h : (if fwd then runSetup db fuel r e else runUnsetup db fuel r e) with
+  | ok s => exact absurd h (hfail s)
+  | notFound s => simp
+  | raised s => simp
+  | fuel => simp
+
+/-- … and when `Eups.setup` itself answers "not found" (unknown product or version; unsetup of a product that is not set
+up) the in-process environment, aliases included, is exactly the one it was given — every database, flag, fuel.  (When a
+*required dependency* fails the exception leaves a half-built `os.environ` behind in the process — observation in
+DESIGN §7 — but nothing is emitted: previous theorem.) -/
+theorem C02_notfound_leaves_environment (db : Db) (fuel : Nat) (fwd : Bool) (r : Request) (e : Setup.Env) (s' : St)
+    (h : (if fwd then runSetup db fuel r e else runUnsetup db fuel r e) = .notFound s') :
+    s'.env = e ∧ s'.aliases = [] ∧ s'.unaliased = [] := by
+  cases fwd with
+  | true =>
+    have := setup_notFound_unchanged _ _ _ _ _ _ _ _ _ _ _ h
+    subst this; exact ⟨rfl, rfl, rfl⟩
+  | false =>
+    have := setup_notFound_unchanged _ _ _ _ _ _ _ _ _ _ _ h
+    subst this; exact ⟨rfl, rfl, rfl⟩
+
+/-- the VRO a dependency line is resolved with (`Action.processArgs`): its own `-t` tags in front of the current VRO,
+"keep" in front of everything when the current VRO has it or the line carries `-k` -/
+def lineVro (vro : List VroEnt) (tags : List Str) (keepLine : Bool) : List VroEnt :=
+  if VroEnt.keep ∈ vro ∨ keepLine = true then VroEnt.keep :: (tags.map VroEnt.tag ++ vro) else tags.map VroEnt.tag ++ vro
+
+/-- … and inside a request: when a dependency fails (`setupOptional`, or any dependency while unwinding), the
+remaining actions of the table run from exactly the environment and aliases that were current before the attempt
+(`popStack("env")`); what the failed attempt did to `os.environ` and to the alias table is discarded. -/
+theorem C02_failed_dependency_restores_env (rec : Rec) (cfg : Cfg) (fwd : Bool) (depth : Nat) (vro : List VroEnt)
+    (d : Decl) (n : Name) (opt just : Bool) (ver : Option VerReq) (vexpr : Option VExpr) (tags : List Str) (kl : Bool)
+    (rest : List Act) (s s' : St) (hgo : cfg.maxDepth ≠ some depth) (hopt : fwd = false ∨ opt = true)
+    (hfail : rec fwd (depth + 1) just (lineVro vro tags kl) n
+        (if fwd then ver else none) (if fwd then vexpr else none) s = .notFound s' ∨
+      rec fwd (depth + 1) just (lineVro vro tags kl) n
+        (if fwd then ver else none) (if fwd then vexpr else none) s = .raised s') :
+    acts rec cfg fwd depth false vro d (.dep n opt just ver vexpr tags kl :: rest) s =
+      acts rec cfg fwd depth false vro d rest (⟨s.env, s.aliases, s.unaliased, s'.already, s'.cache⟩ : St) := by
+  have hcond : (fwd && !opt) = false := by rcases hopt with h | h <;> simp [h]
+  unfold lineVro at hfail
+  rcases hfail with h | h <;> simp [acts, hgo, h, hcond]
+
+/-- a failing *required* dependency aborts the request with the environment it had before the attempt -/
+theorem C02_failed_required_dependency_raises (rec : Rec) (cfg : Cfg) (depth : Nat) (vro : List VroEnt)
+    (d : Decl) (n : Name) (just : Bool) (ver : Option VerReq) (vexpr : Option VExpr) (tags : List Str) (kl : Bool)
+    (rest : List Act) (s s' : St) (hgo : cfg.maxDepth ≠ some depth)
+    (hfail : rec true (depth + 1) just (lineVro vro tags kl) n ver vexpr s = .notFound s' ∨
+      rec true (depth + 1) just (lineVro vro tags kl) n ver vexpr s = .raised s') :
+    acts rec cfg true depth false vro d (.dep n false just ver vexpr tags kl :: rest) s = .raised (⟨s.env, s.aliases, s.unaliased, s'.already, s'.cache⟩ : St) := by
+  unfold lineVro at hfail
+  rcases hfail with h | h <;> simp [acts, hgo, h]
+
+/-! ## clause 1 is false as stated: two witnesses (design limits of eups, findings D15a / D15b) -/
+
+def nA : Name := [97]
+def v1 : Ver := ([49], 0)
+def PATH : Str := [80]
+def V : Str := [86]
+def reqA : Request := ⟨nA, none, false, none, false, [], [0]⟩
+
+/-- `a 1`: `envSet(V, ${PRODUCT_DIR})`, `envPrepend(PATH, ${PRODUCT_DIR}/bin)` -/
+def dbA : Db :=
+  { decls := [⟨nA, v1, [47, 97], [(.always, .set V (.own [])), (.always, .prepend PATH [.own [47, 98]] false)]⟩],
+    tags := [(tagCurrent, nA, v1)] }
+
+/-- setup then unsetup, both successful -/
+def roundTrip (db : Db) (r : Request) (e0 : Setup.Env) : Option Setup.Env :=
+  match runSetup db 10 r e0 with
+  | .ok s1 => (match runUnsetup db 10 r s1.env with
+    | .ok s2 => some s2.env
+    | _ => none)
+  | _ => none
+
+/-- D15a: `V` was defined before; `envSet(V, …)` and its unsetup leave it unset -/
+def priorA : Setup.Env := { Setup.Env.empty with vars := [(V, .foreign [111, 108, 100])] }
+/-- D15b: `PATH` already held the element the table contributes -/
+def priorB : Setup.Env := { Setup.Env.empty with paths := [(PATH, [.foreign [47, 117], .own (nA, v1) [47, 98]])] }
+
+theorem C02_inverse_not_full_envSet :
+    ∃ e2, roundTrip dbA reqA priorA = some e2 ∧ ¬ e2.approx priorA := by
+  refine ⟨⟨[], [], [(PATH, [])], []⟩, by decide +kernel, ?_⟩
+  intro h
+  have := h.2.2.2 V
+  revert this
+  decide +kernel
+
+theorem C02_inverse_not_full_contained :
+    ∃ e2, roundTrip dbA reqA priorB = some e2 ∧ ¬ e2.approx priorB := by
+  refine ⟨⟨[], [], [(PATH, [.foreign [47, 117]])], []⟩, by decide +kernel, ?_⟩
+  intro h
+  have := h.2.2.1 PATH
+  revert this
+  decide +kernel
+
+/-! ## clause 1, positive part -/
+
+/-- the closure of the request, over-approximated: the names a path of dependency lines (of any declared version,
+under any guard) leads to from the requested name -/
+def Reach (db : Db) (top : Name) (n : Name) : Prop := ∃ k, Within db top k n
+
+/-- `Fresh`: nothing of the closure is in the prior environment — no record, no `<P>_DIR`, no own element of a closure
+product in any path variable, and no variable that a table of the closure `envSet`s is defined (D15a / D15b are its
+two negations) -/
+structure Fresh (db : Db) (r : Request) (e0 : Setup.Env) : Prop where
+  recs : ∀ n, Reach db r.name n → e0.rec? n = none
+  dirs : ∀ n, Reach db r.name n → aget e0.dirs n = none
+  paths : ∀ var p rel, Elem.own p rel ∈ e0.pathOf var → ¬ Reach db r.name p.1
+  vars : ∀ var, SetVar db (Reach db r.name) var → aget e0.vars var = none
+
+open Classical in
+/-- `setup p; unsetup p` restores the environment (the property's `≈`: path variables as duplicate-free lists) — for
+own-directory tables over a `NameDag` database, from a residue-free environment that is `Fresh` for the request,
+**provided no product of the closure is left set up** (`hrecs`).  That proviso is the whole of what can go wrong: known
+finding D33 (a version conflict combined with `-j`) is a run in which it fails.  Every flag combination, any fuel,
+bystanders set up before keep everything they had (order included). -/
+theorem C02_inverse_partial (db : Db) (rank : Name → Nat) (hdag : NameDag db rank) (hown : OwnTables db)
+    (fuel1 fuel2 : Nat) (r : Request) (e0 : Setup.Env) (s1 s2 : St)
+    (hwell : WellOwned (r.cfg db) e0) (hres : NoResidue Empty e0) (hfresh : Fresh db r e0)
+    (h1 : runSetup db fuel1 r e0 = .ok s1) (h2 : runUnsetup db fuel2 r s1.env = .ok s2)
+    (hrecs : ∀ n, Reach db r.name n → s2.env.rec? n = none) : s2.env.approx e0 := by
+  let cfg := r.cfg db
+  let S : Name → Prop := Reach db r.name
+  have hcl : ClosedAt cfg (fun _ n => S n) := within_closedAt_unbounded cfg r.name
+  have hS0 : S r.name := ⟨0, Within.root⟩
+  have ha : ∀ e : Setup.Env, AlreadyOK cfg.db (St.init e).already := by
+    intro e n d x h; simp [St.init, aget] at h
+  -- an invariant relative to `e0` goes through both runs
+  have both : ∀ P : Setup.Env → Prop, SubjInv cfg (fun _ n => S n) P → P e0 → P s2.env := by
+    intro P hP hp0
+    have hp1 : P s1.env := setup_subjInv cfg _ P hcl hP fuel1 true 0 false r.vro r.name r.version none (St.init e0) s1
+      hS0 (ha e0) hp0 h1
+    exact setup_subjInv cfg _ P hcl hP fuel2 false 0 false r.vro r.name none none (St.init s1.env) s2 hS0 (ha s1.env) hp1 h2
+  -- no residue after both runs
+  obtain ⟨hres1, hwell1⟩ := (setup_recOK cfg rank hdag fuel1).spec true 0 false r.vro r.name r.version none (St.init e0) s1
+    (ha e0) hwell hres h1
+  obtain ⟨hres2, _⟩ := setup_false_spec cfg fuel2 Empty 0 false r.vro r.name none none (St.init s1.env) s2 hwell1 hres1 h2
+  have nores : ∀ p : Prod, S p.1 → ¬ (Empty p ∨ s2.env.rec? p.1 = some p.2) := by
+    intro p hp h
+    rcases h with h | h
+    · exact h
+    · rw [hrecs p.1 hp] at h; cases h
+  -- names outside the closure
+  have outside : ∀ m, ¬ S m → SameFor m e0 s2.env :=
+    fun m hm => both (SameFor m e0) (sameFor_subjInv cfg _ m (fun _ h => hm h) e0) (SameFor.refl m e0)
+  refine ⟨?_, ?_, ?_, ?_⟩
+  · intro n
+    by_cases hn : S n
+    · rw [hrecs n hn, hfresh.recs n hn]
+    · exact (outside n hn).record
+  · intro n
+    by_cases hn : S n
+    · have := both (DirClean S) (dirClean_subjInv cfg S) (fun n hn _ => hfresh.dirs n hn)
+      rw [this n hn (hrecs n hn), hfresh.dirs n hn]
+    · exact (outside n hn).dir
+  · intro var
+    let f : Elem → Bool := fun x => match x with
+      | .own p _ => decide (¬ S p.1)
+      | .foreign _ => true
+    have hpart := both (fun e => ∀ var, partBy f e var = partBy f e0 var)
+      (partBy_subjInv cfg S hown f (fun p rel hp => by simp [f, hp]) e0) (fun _ => rfl) var
+    have hall2 : (s2.env.pathOf var).filter f = s2.env.pathOf var := by
+      apply List.filter_eq_self.mpr
+      intro x hx
+      cases x with
+      | foreign s => rfl
+      | own p rel =>
+        by_cases hp : S p.1
+        · exact absurd (hres2.path var p rel hx) (nores p hp)
+        · simp [f, hp]
+    have hall0 : (e0.pathOf var).filter f = e0.pathOf var := by
+      apply List.filter_eq_self.mpr
+      intro x hx
+      cases x with
+      | foreign s => rfl
+      | own p rel =>
+        have hp := hfresh.paths var p rel hx
+        show decide (¬ S p.1) = true
+        exact decide_eq_true hp
+    unfold partBy at hpart
+    rw [hall2, hall0] at hpart
+    exact hpart
+  · intro var
+    have hv := both (VarsInv db S e0) (varsInv_subjInv cfg S hown e0)
+      ⟨fun _ _ => rfl, fun var hvar => Or.inl (hfresh.vars var hvar)⟩
+    by_cases hvar : SetVar db S var
+    · rcases hv.mine var hvar with h | ⟨p, rel, h, hp⟩
+      · rw [h, hfresh.vars var hvar]
+      · exact absurd (hres2.vars var p rel h) (nores p hp)
+    · exact hv.other var hvar
+
+/-- single product: when no declared version of the requested product has a dependency line, the proviso holds and
+the round trip restores the environment -/
+theorem C02_inverse_single (db : Db) (rank : Name → Nat) (hdag : NameDag db rank) (hown : OwnTables db)
+    (fuel1 fuel2 : Nat) (r : Request) (e0 : Setup.Env) (s1 s2 : St)
+    (hnodep : ∀ d ∈ db.decls, d.name = r.name → ∀ g n o j v x t kl, (g, Act.dep n o j v x t kl) ∉ d.table)
+    (hwell : WellOwned (r.cfg db) e0) (hres : NoResidue Empty e0) (hfresh : Fresh db r e0)
+    (h1 : runSetup db fuel1 r e0 = .ok s1) (h2 : runUnsetup db fuel2 r s1.env = .ok s2) : s2.env.approx e0 := by
+  refine C02_inverse_partial db rank hdag hown fuel1 fuel2 r e0 s1 s2 hwell hres hfresh h1 h2 ?_
+  have honly : ∀ k n, Within db r.name k n → n = r.name := by
+    intro k n hw
+    induction hw with
+    | root => rfl
+    | step _ hd hn hg ih => subst ih; exact absurd hg (hnodep _ hd hn _ _ _ _ _ _ _ _)
+  intro n ⟨k, hk⟩
+  rw [honly k n hk]
+  obtain ⟨_, hwell1⟩ := (setup_recOK (r.cfg db) rank hdag fuel1).spec true 0 false r.vro r.name r.version none (St.init e0) s1
+    (by intro n d x h; simp [St.init, aget] at h) hwell hres h1
+  exact setup_false_unsets (r.cfg db) fuel2 0 false r.vro r.name none none (St.init s1.env) s2 hwell1 h2
+
+private theorem reach_rank_le (db : Db) (rank : Name → Nat) (hdag : NameDag db rank) (top : Name) :
+    ∀ k n, Within db top k n → rank n ≤ rank top := by
+  intro k n hw
+  induction hw with
+  | root => exact Nat.le_refl _
+  | step _ hd hn hg ih =>
+    have := hdag _ hd _ _ _ _ _ _ _ _ hg
+    rw [hn] at this
+    omega
+
+/-- chains, diamonds **and version conflicts inside the request**: when no dependency line of the closure carries `-j` and
+`max_depth` is not set, the proviso of `C02_inverse_partial` holds.  Optional dependencies (failing ones included), shared
+dependencies, several declared versions per product and products replaced in the middle of the request are inside the
+claim: replacing a version unwinds it together with everything its table names, so whatever stays set up was asked for by
+a product that is still set up, and unsetup reaches it.  (`-j` is what known finding D33 needs.) -/
+theorem C02_inverse_nojust_partial (db : Db) (rank : Name → Nat) (hdag : NameDag db rank) (hown : OwnTables db)
+    (fuel1 fuel2 : Nat) (r : Request) (e0 : Setup.Env) (s1 s2 : St)
+    (hmd : r.maxDepth = none) (hnj : NoJust db (Reach db r.name))
+    (hdir : DirOK db e0) (hwell : WellOwned (r.cfg db) e0) (hres : NoResidue Empty e0) (hfresh : Fresh db r e0)
+    (h1 : runSetup db fuel1 r e0 = .ok s1) (h2 : runUnsetup db fuel2 r s1.env = .ok s2) : s2.env.approx e0 := by
+  refine C02_inverse_partial db rank hdag hown fuel1 fuel2 r e0 s1 s2 hwell hres hfresh h1 h2 ?_
+  let cfg := r.cfg db
+  let S : Name → Prop := Reach db r.name
+  have hcl : Closed cfg.db S := fun d hd ⟨k, hk⟩ g n o j v x t kl hg => ⟨k + 1, Within.step hk hd rfl hg⟩
+  have hS0 : S r.name := ⟨0, Within.root⟩
+  have ha : ∀ e : Setup.Env, AlreadyOK cfg.db (St.init e).already := by
+    intro e n d x h; simp [St.init, aget] at h
+  -- forward: support and declared records
+  have hdecl0 : RecsDeclared cfg.db e0 := fun n v hr => (hdir n v hr).1
+  have hsupp0 : Supp cfg S r.name e0 := by
+    intro m v hm hr; rw [hfresh.recs m hm] at hr; cases hr
+  obtain ⟨hsupp1, hdecl1⟩ := setup_supp2 cfg rank hdag S r.name hmd hcl hnj fuel1 0 r.vro r.name r.version none
+    (St.init e0) s1 hS0 (Or.inl rfl) (ha e0) hwell hres hdecl0 hsupp0 h1
+  -- unsetup: what loses its record takes its dependencies along
+  obtain ⟨_, hwell1⟩ := (setup_recOK cfg rank hdag fuel1).spec true 0 false r.vro r.name r.version none (St.init e0) s1
+    (ha e0) hwell hres h1
+  have hclear := setup_false_clear cfg S hmd hcl hnj fuel2 0 r.vro r.name none none (St.init s1.env) s2 hS0 hwell1 hdecl1 h2
+  obtain ⟨_, hsub⟩ := setup_false_spec cfg fuel2 (fun _ => True) 0 false r.vro r.name none none (St.init s1.env) s2 hwell1
+    (noResidue_true _) h2
+  have htop : s2.env.rec? r.name = none :=
+    setup_false_unsets cfg fuel2 0 false r.vro r.name none none (St.init s1.env) s2 hwell1 h2
+  -- by induction on the distance of the rank from the top's
+  have key : ∀ k m, S m → rank r.name - rank m ≤ k → s2.env.rec? m = none := by
+    intro k
+    induction k with
+    | zero =>
+      intro m hm hk
+      cases hc : s2.env.rec? m with
+      | none => rfl
+      | some v =>
+        exfalso
+        rcases hsupp1 m v hm (hsub.recs m v hc) with rfl | ⟨p, w, hp, hpw, o, j, x, y, t, kl, hline⟩
+        · rw [htop] at hc; cases hc
+        · obtain ⟨dp, hdp, hname, g, hg⟩ := tableOf_mem cfg p w _ hline
+          have h1 := hdag dp hdp g m o j x y t kl hg
+          obtain ⟨kp, hkp⟩ := hp
+          have h2 := reach_rank_le db rank hdag r.name kp p hkp
+          rw [hname] at h1
+          omega
+    | succ k ih =>
+      intro m hm hk
+      cases hc : s2.env.rec? m with
+      | none => rfl
+      | some v =>
+        exfalso
+        rcases hsupp1 m v hm (hsub.recs m v hc) with rfl | ⟨p, w, hp, hpw, o, j, x, y, t, kl, hline⟩
+        · rw [htop] at hc; cases hc
+        · obtain ⟨dp, hdp, hname, g, hg⟩ := tableOf_mem cfg p w _ hline
+          have h1 := hdag dp hdp g m o j x y t kl hg
+          rw [hname] at h1
+          have hpnone := ih p hp (by omega)
+          have := hclear p w hp hpw hpnone m o j x y t kl hline
+          rw [this] at hc; cases hc
+  intro n hn
+  exact key (rank r.name) n hn (by omega)
+
+/-- the special case announced in DESIGN ("chains → diamonds"): closures with one declared version per name -/
+theorem C02_inverse_diamond_partial (db : Db) (rank : Name → Nat) (hdag : NameDag db rank) (hown : OwnTables db)
+    (fuel1 fuel2 : Nat) (r : Request) (e0 : Setup.Env) (s1 s2 : St)
+    (hmd : r.maxDepth = none) (hnj : NoJust db (Reach db r.name)) (_hone : OneVersion db (Reach db r.name))
+    (hdir : DirOK db e0) (hwell : WellOwned (r.cfg db) e0) (hres : NoResidue Empty e0) (hfresh : Fresh db r e0)
+    (h1 : runSetup db fuel1 r e0 = .ok s1) (h2 : runUnsetup db fuel2 r s1.env = .ok s2) : s2.env.approx e0 :=
+  C02_inverse_nojust_partial db rank hdag hown fuel1 fuel2 r e0 s1 s2 hmd hnj hdir hwell hres hfresh h1 h2
+
+/-- the hypotheses are satisfiable and the conclusion is not vacuous: `dbA` with a foreign-only `PATH` -/
+example : OwnTables dbA ∧ NameDag dbA (fun _ => 0) ∧
+    Fresh dbA reqA { Setup.Env.empty with paths := [(PATH, [.foreign [47, 117]])] } := by
+  refine ⟨ownTables_of_check _ (by decide +kernel), nameDag_of_check _ _ (by decide +kernel), ?_⟩
+  · refine ⟨fun _ _ => rfl, fun _ _ => rfl, ?_, fun _ _ => rfl⟩
+    intro var p rel h
+    by_cases hv : var = PATH
+    · subst hv; simp [Setup.Env.pathOf, aget] at h
+    · simp [Setup.Env.pathOf, aget, Ne.symm hv] at h
+
+/-- non-vacuity of `C02_inverse_diamond_partial`: the diamond `t → a → c`, `t → b → c` (one version each, `c` optional
+from `b`) satisfies the hypotheses, the two requests succeed from a `PATH` holding a foreign element, and the
+environment comes back -/
+def nT : Name := [116]
+def nB : Name := [98]
+def nC : Name := [99]
+def dbDia : Db :=
+  { decls := [
+      ⟨nT, v1, [1], [(.always, .dep nA false false none none [] false), (.always, .prepend PATH [.own [1]] false),
+                     (.always, .dep nB false false none none [] false)]⟩,
+      ⟨nA, v1, [2], [(.always, .prepend PATH [.own [1]] false), (.always, .dep nC false false none none [] false)]⟩,
+      ⟨nB, v1, [3], [(.always, .dep nC true false none none [] false), (.always, .set V (.own [])), (.always, .prepend PATH [.own [1]] true)]⟩,
+      ⟨nC, v1, [4], [(.always, .prepend PATH [.own [1]] false)]⟩ ],
+    tags := [(tagCurrent, nT, v1), (tagCurrent, nA, v1), (tagCurrent, nB, v1), (tagCurrent, nC, v1)] }
+def reqT : Request := ⟨nT, none, false, none, false, [], [0]⟩
+def priorDia : Setup.Env := { Setup.Env.empty with paths := [(PATH, [.foreign [47, 117]])] }
+
+/-- records after the setup step (none when it does not succeed) -/
+def recsAfterSetup (db : Db) (r : Request) (e : Setup.Env) : Option (List (Name × Ver)) :=
+  match runSetup db 10 r e with
+  | .ok s => some s.env.recs
+  | _ => none
+
+example : OwnTables dbDia ∧ NameDag dbDia (fun n => if n = nT then 3 else if n = nC then 1 else 2) ∧
+    NoJust dbDia (Reach dbDia reqT.name) ∧ OneVersion dbDia (Reach dbDia reqT.name) ∧
+    recsAfterSetup dbDia reqT priorDia = some [(nB, v1), (nC, v1), (nA, v1), (nT, v1)] ∧
+    roundTrip dbDia reqT priorDia = some ⟨[], [], [(PATH, [.foreign [47, 117]])], []⟩ :=
+  ⟨ownTables_of_check _ (by decide +kernel), nameDag_of_check _ _ (by decide +kernel),
+   noJust_of_check _ _ (by decide +kernel), oneVersion_of_check _ _ (by decide +kernel),
+   by decide +kernel, by decide +kernel⟩
+
+/-- non-vacuity of `C02_inverse_nojust_partial` with a version conflict: `t → a → c 1`, `t → b → c 2` (`c 1` is set up,
+then replaced by `c 2`, in one request); the round trip restores the prior environment -/
+def v2 : Ver := ([50], 0)
+def dbConflict : Db :=
+  { decls := [
+      ⟨nT, v1, [1], [(.always, .dep nA false false none none [] false), (.always, .dep nB false false none none [] false)]⟩,
+      ⟨nA, v1, [2], [(.always, .prepend PATH [.own [1]] false), (.always, .dep nC false false (some (.explicit v1.1)) none [] false)]⟩,
+      ⟨nB, v1, [3], [(.always, .prepend PATH [.own [1]] false), (.always, .dep nC false false (some (.explicit v2.1)) none [] false)]⟩,
+      ⟨nC, v1, [4], [(.always, .prepend PATH [.own [1], .own [2]] false)]⟩,
+      ⟨nC, v2, [5], [(.always, .prepend PATH [.own [1]] true)]⟩ ],
+    tags := [(tagCurrent, nT, v1), (tagCurrent, nA, v1), (tagCurrent, nB, v1), (tagCurrent, nC, v1)] }
+
+example : OwnTables dbConflict ∧ NameDag dbConflict (fun n => if n = nT then 3 else if n = nC then 1 else 2) ∧
+    NoJust dbConflict (Reach dbConflict reqT.name) ∧
+    recsAfterSetup dbConflict reqT priorDia = some [(nC, v2), (nB, v1), (nA, v1), (nT, v1)] ∧
+    roundTrip dbConflict reqT priorDia = some ⟨[], [], [(PATH, [.foreign [47, 117]])], []⟩ :=
+  ⟨ownTables_of_check _ (by decide +kernel), nameDag_of_check _ _ (by decide +kernel),
+   noJust_of_check _ _ (by decide +kernel), by decide +kernel, by decide +kernel⟩
+
+end EupsModel.C02
